@@ -62,6 +62,9 @@ type lifeCase struct {
 	AcceptDelayMs int `json:"accept_delay_ms,omitempty"`
 	// Reenter: every installed callback calls back into the server (Server.Addr(), which takes the server's lock for reading)
 	Reenter bool `json:"reenter,omitempty"`
+	// ReadTimeoutMs: Server.ReadTimeout (0: 10 ms). With a long value (a minute) an idle connection sits in one Read for that long; serve
+	// must still return promptly when its context is cancelled, and Shutdown must still close idle connections.
+	ReadTimeoutMs int `json:"read_timeout_ms,omitempty"`
 	// BareListener: Serve is given a listener that offers nothing but Accept, Close and Addr (what tls.NewListener,
 	// netutil.LimitListener or any decorator embedding net.Listener is) instead of the *net.TCPListener itself
 	BareListener bool `json:"bare_listener,omitempty"`
@@ -254,6 +257,9 @@ func runLifeOnce(c lifeCase) harness.Result {
 	}
 	h := &handler{ev: ev, dev: device.New(c.Seed)}
 	s := &server.Server{ReadTimeout: 10 * time.Millisecond, WriteTimeout: 3 * time.Second}
+	if c.ReadTimeoutMs > 0 {
+		s.ReadTimeout = time.Duration(c.ReadTimeoutMs) * time.Millisecond
+	}
 	if c.WriteTimeoutMs > 0 && c.WriteDelayMs == 0 {
 		s.WriteTimeout = time.Duration(c.WriteTimeoutMs) * time.Millisecond
 	}
@@ -332,6 +338,9 @@ func runLifeOnce(c lifeCase) harness.Result {
 	labels := []string{fmt.Sprintf("callbacks:%d", c.Callbacks)}
 	if c.AcceptDelayMs > 0 {
 		labels = append(labels, "slow-accept-callback")
+	}
+	if c.ReadTimeoutMs >= 1000 {
+		labels = append(labels, "read-timeout-one-minute")
 	}
 	if c.BareListener || c.WriteDelayMs > 0 {
 		labels = append(labels, "listener-offers-only-Accept-Close-Addr")
@@ -770,6 +779,9 @@ func genLife(t *rapid.T) lifeCase {
 	}
 	c.Reenter = c.Callbacks != 0 && rapid.IntRange(0, 2).Draw(t, "reenter") == 0
 	c.BareListener = rapid.IntRange(0, 2).Draw(t, "bare_listener") == 0
+	if rapid.IntRange(0, 3).Draw(t, "long_read_timeout") == 0 {
+		c.ReadTimeoutMs = 60000
+	}
 	if c.Callbacks&cbAccept != 0 && rapid.IntRange(0, 2).Draw(t, "slow_accept") == 0 {
 		c.AcceptDelayMs = rapid.SampledFrom([]int{2, 10, 25}).Draw(t, "accept_delay")
 		if rapid.Bool().Draw(t, "connect_last") {
